@@ -1,4 +1,6 @@
--- stub: component `al` not built yet
+import Driver.Al
+open Driver
+
 def main : IO UInt32 := do
-  IO.eprintln "driver-al: not implemented"
-  return 2
+  runComponent Al.init Al.step
+  return 0
